@@ -1,4 +1,5 @@
 import ModbusModel.Lemmas.Client
+import ModbusModel.Props.C17
 /-
   C10 – TCP transaction identifiers are fresh for every transmitted request.
 -/
@@ -46,6 +47,42 @@ theorem tid_counts_calls (ops : List Op) (c : Client) (t : Transport) (hk : c.ki
     · apply UInt16.toNat_inj.mp
       simp [UInt16.toNat_add, UInt16.toNat_ofNat']
       omega
+
+/-- **tid_counts_calls (blocking client)**: the same count through the blocking client, over any
+    session – calls and typed methods that complete or time out at any poll, slave changes,
+    timeouts switched on and off: the next id is the initial id plus the number of polled calls
+    of the asynchronous session underneath -/
+theorem blocking_tid_counts_calls (ops : List SyncOp) (s : SyncContext) (t : Transport)
+    (hk : s.asyncCtx.kind = .tcp) :
+    (runSync s t ops).2.1.asyncCtx.nextTid
+      = s.asyncCtx.nextTid + UInt16.ofNat (polledCalls (asyncSession s.timeout ops))
+    ∧ (runSync s t ops).2.1.asyncCtx.kind = .tcp := by
+  rw [Props.C17.sync_session_simulates]
+  exact tid_counts_calls _ s.asyncCtx t hk
+
+/-- a blocking operation that issues a request -/
+def isRequest : SyncOp → Bool
+  | .call .. => true
+  | .typed .. => true
+  | _ => false
+
+/-- without a timeout every blocking call or typed method is polled to the end: the id counts
+    every one of them -/
+theorem blocking_calls_all_polled (ops : List SyncOp) (hno : ∀ on, SyncOp.setTimeout on ∉ ops) :
+    polledCalls (asyncSession false ops) = (ops.filter isRequest).length := by
+  induction ops with
+  | nil => simp [asyncSession, polledCalls]
+  | cons o ops ih =>
+    have ih := ih (fun on h => hno on (by simp [h]))
+    simp only [polledCalls] at ih ⊢
+    cases o with
+    | setTimeout on => exact absurd (by simp) (hno on)
+    | call req ext d =>
+      simp [asyncSession, SyncOp.asyncOf, Op.isPolledCall, isRequest, List.filter_cons, ih]
+    | typed top ext d =>
+      simp [asyncSession, SyncOp.asyncOf, Op.isPolledCall, isRequest, List.filter_cons, ih]
+    | setSlave id =>
+      simp [asyncSession, SyncOp.asyncOf, Op.isPolledCall, isRequest, List.filter_cons, ih]
 
 /-- a freshly attached client starts at 0: the n-th call (counting from 0) stamps `n mod 65536` -/
 theorem nth_call_tid (ops : List Op) (t : Transport) :
